@@ -289,14 +289,16 @@ class Coll(Val):
     def body(self):
         return []  # begCollection has an empty value
 
-    def tail(self):
-        """the member attributes and the endCollection that follow the begCollection value (RFC 8010 §3.1.6)"""
+    def tail(self, enc=False):
+        """the member attributes and the endCollection that follow the begCollection value (RFC 8010 §3.1.6).
+        enc: the encoder works from a name-ordered map, so its member order is name order (RFC 8010 does not
+        prescribe one); the parse direction keeps the order written in the shape"""
         out = []
-        for name, vals in self.members:
+        for name, vals in (sorted(self.members, key=lambda m: m[0]) if enc else self.members):
             nb = [ord(ch) for ch in name]
             out += [T['memberAttrName']] + be16(0) + be16(len(nb)) + nb
             for v in vals:
-                out += value_wire(v, first_name=None)
+                out += value_wire(v, first_name=None, enc=enc)
         out += [T['endCollection']] + be16(0) + be16(0)
         return out
 
@@ -331,13 +333,13 @@ def check_set_or_single(vals, v):
     return 'match %s { IppValue::Array(l) => { %s } _ => assert!(false, "several values must come back as an ordered set") }' % (v, ' '.join(inner))
 
 
-def value_wire(v, first_name):
+def value_wire(v, first_name, enc=False):
     """one value as it appears on the wire: tag, name (empty for additional / member values), length, body"""
     nb = [ord(ch) for ch in (first_name or '')]
     b = v.body()
     out = [v.tag()] + be16(len(nb)) + nb + be16(len(b)) + b
     if isinstance(v, Coll):
-        out += v.tail()
+        out += v.tail(enc)
     return out
 
 
@@ -345,10 +347,10 @@ class Attr:
     def __init__(self, name, vals):
         self.name, self.vals = name, vals
 
-    def wire(self):
+    def wire(self, enc=False):
         out = []
         for i, v in enumerate(self.vals):
-            out += value_wire(v, self.name if i == 0 else None)
+            out += value_wire(v, self.name if i == 0 else None, enc)
         return out
 
 
@@ -393,7 +395,7 @@ class Shape:
                     pinned = [ai for name in PINNED for ai in order if attrs[ai].name == name]
                     order = pinned + [ai for ai in order if ai not in pinned]
                 for ai in order:
-                    out += attrs[ai].wire()
+                    out += attrs[ai].wire(enc=True)
             out.append(G['end'])
             results.append(out)
         return results
